@@ -169,7 +169,7 @@ func (m *Machine) Explore(root *ssa.Package, fn *ssa.Function, args []value, job
 			completed = true
 		}()
 		res.Paths++
-		if completed && len(res.Samples) < e.MaxSamples && !e.inconcl {
+		if completed && len(res.Samples) < e.MaxSamples && !e.inconcl && !e.violated {
 			if script := e.sampleModel(); script != nil {
 				res.Samples = append(res.Samples, Sample{Job: job, Script: script, Trace: append([]string{}, e.trace...), Sched: append([]string{}, e.sched...)})
 			}
